@@ -558,6 +558,37 @@ pub fn step(sess: &mut Sess, toks: &[&str]) -> Option<String> {
                 Err(e) => gris_err(&e),
             })
         }
+        "ogridg" => {
+            // ogridg grisubal|capture <geometry as for `grisubal`>: the overlapping grid the call chooses (origin-shift loop
+            // of compute_overlapping_grid included), read off the map it returns without clipping: `ok ox oy nx ny`
+            if toks.len() < 3 {
+                return Some("bad-op".into());
+            }
+            let Some(g) = parse_geo(&toks[2..]) else { return Some("bad-op".into()) };
+            let path = TmpFile(write_vtk(&g));
+            let r = match toks[1] {
+                "grisubal" => grisubal::<f64>(&path.0, g.cell, Clip::None),
+                "capture" => capture_geometry::<f64>(&path.0, g.cell, Clip::None),
+                _ => return Some("bad-op".into()),
+            };
+            Some(match r {
+                Ok(map) => {
+                    let (mut x0, mut x1, mut y0, mut y1) = (f64::INFINITY, f64::NEG_INFINITY, f64::INFINITY, f64::NEG_INFINITY);
+                    for v in map.iter_vertices() {
+                        if let Some(p) = map.force_read_vertex(v) {
+                            x0 = x0.min(p.x());
+                            x1 = x1.max(p.x());
+                            y0 = y0.min(p.y());
+                            y1 = y1.max(p.y());
+                        }
+                    }
+                    let nx = ((x1 - x0) / g.cell[0]).round() as usize;
+                    let ny = ((y1 - y0) / g.cell[1]).round() as usize;
+                    format!("ok {} {} {nx} {ny}", crate::fmt::rat(x0), crate::fmt::rat(y0))
+                }
+                Err(e) => gris_err(&e),
+            })
+        }
         "gids" => {
             // gids <nk> k1 … <n> (d t | 0 nan) …: steps 2 + 3 of grisubal on the session map (hook
             // `grisubal::verif::intersection_darts` = group_intersections_per_edge + compute_intersection_ids +
